@@ -395,7 +395,7 @@ theorem decode_cases (old : Layer) (data foreign : Bytes) : decode old data fore
               simp only [Res.bind_ok]
               by_cases hx : (x.toNat == 0) = true
               · simp only [hx, ↓reduceIte]; rfl
-              · simp only [hx, ↓reduceIte]
+              · simp only [hx]
                 have := decodeExts_spec data foreign data.length 11
                 rw [hd11] at this
                 rw [show 8 + 4 = 11 + 1 from rfl, this, hlen']
@@ -421,7 +421,7 @@ theorem decode_cases (old : Layer) (data foreign : Bytes) : decode old data fore
             rw [← List.drop_drop, hd12]
             rfl
       · have hopt' : (sFlag || pnFlag || eFlag) = false := by simpa using hopt
-        simp only [hopt', Bool.false_eq_true, ↓reduceIte, Res.bind_ok, res_pure_bind]
+        simp only [hopt', Bool.false_eq_true, ↓reduceIte, res_pure_bind]
         rw [sliceCap_le data foreign 0 8 (by omega) (by omega), sliceFrom_le data 8 (by omega), hd8]
         simp only [Res.bind_ok, List.drop_zero, Nat.sub_zero]
         rw [← hdata]
